@@ -177,6 +177,10 @@ def replay_validate(ctx, name, driver_mod, driver_args, behaviours, trace_module
                 e = json.loads(ln)
             except ValueError:
                 continue
+            if "note" in e and e["note"]:
+                # an observation outside the property the check decides (events may carry one): into the evidence notes
+                local.setdefault("notes", {}).setdefault(str(e["note"])[:300], 0)
+                local["notes"][str(e["note"])[:300]] += 1
             key = e.get("e", "?") + (":" + str(e["f"]) if "f" in e else "") + (":" + str(e["how"]) if "how" in e else "")
             c = local["okcount"].setdefault(key, [0, 0])
             c[0 if e.get("rv") == "OK" else 1] += 1
@@ -232,7 +236,10 @@ def replay_validate(ctx, name, driver_mod, driver_args, behaviours, trace_module
 
     with cf.ThreadPoolExecutor(max_workers=jobs) as ex:
         locs = list(ex.map(handle_chunk, results))
+    seen_notes = {}
     for loc in locs:
+        for k2, v2 in loc.get("notes", {}).items():
+            seen_notes[k2] = seen_notes.get(k2, 0) + v2
         st.executions += loc["executions"]
         st.accepted += loc["accepted"]
         st.events += loc["events"]
@@ -243,6 +250,10 @@ def replay_validate(ctx, name, driver_mod, driver_args, behaviours, trace_module
             c = st.okcount.setdefault(k2, [0, 0])
             c[0] += v2[0]
             c[1] += v2[1]
+    for k2 in sorted(seen_notes)[:20]:
+        msg = "beyond the listed properties (%s): %s [%d events]" % (name, k2, seen_notes[k2])
+        if not any(n.startswith("beyond the listed properties") and k2 in n for n in ctx.notes):
+            ctx.notes.append(msg)
     for (k, cw, out, rc, err) in results:
         if rc != 0:
             ctx.notes.append("driver chunk %d of %s ended with rc=%s: %s" % (k, name, rc, err[-300:]))
